@@ -11,7 +11,7 @@ rm -rf $d; mkdir -p $d
 git -C /repo archive HEAD | tar -x -C $d
 ( cd $d && patch -s -p1 < /verif/seeded/$id/patch.diff ) || { echo "$id: patch failed"; rm -rf $d; exit 2; }
 for p in $props; do
-  out=$(cd /verif && VERIF_REPO=$d timeout 1200 ./check $p --tier ${TIER:-quick} 2>&1 | grep -v conda); rc=$?
+  out=$(cd /verif && VERIF_EVIDENCE_DIR=$d/_evidence VERIF_REPLAY_DIR=$d/_replays VERIF_REPO=$d timeout 1200 ./check $p --tier ${TIER:-quick} 2>&1 | grep -v conda); rc=$?
   v=$(echo "$out" | grep -c '^VIOLATION')
   nf=$(echo "$out" | grep '^VIOLATION' | grep -c 'no-failing-input-found')
   echo "$id $p: violations=$v (without failing input: $nf) :: $(echo "$out" | tail -1)"
